@@ -116,13 +116,15 @@ theorem tie_stmt_adaptation_field (p : Bytes) :
         | panic m => rfl
         | ok len =>
           simp only [R.ok_bind]
-          by_cases hg : len > 182
-          · simp only [hg, decide_true, if_true, R.pure_eq, rmap_ok, Option.map]
-          · simp only [hg, decide_false, Bool.false_eq_true, if_false]
-            by_cases h0 : len = 0
-            · subst h0; simp only [BEq.rfl, if_true, R.pure_eq, rmap_ok, Option.map]
-            · have h1 : (len == 0) = false := by simp [h0]
-              simp only [h1, Bool.false_eq_true, if_false, bind_rmap, rmap_bind, R.pure_eq, rmap_ok, Option.map]
+          -- all four combinations of the two tests, in whichever order the source makes them
+          by_cases hg : len > 182 <;> by_cases h0 : len = 0
+          · omega
+          · have h1 : (len == 0) = false := by simp [h0]
+            simp only [hg, h1, decide_true, if_true, Bool.false_eq_true, if_false, R.pure_eq, rmap_ok, Option.map]
+          · subst h0
+            simp only [hg, BEq.rfl, decide_false, if_true, Bool.false_eq_true, if_false, R.pure_eq, rmap_ok, Option.map]
+          · have h1 : (len == 0) = false := by simp [h0]
+            simp only [hg, h1, decide_false, Bool.false_eq_true, if_false, bind_rmap, rmap_bind, R.pure_eq, rmap_ok, Option.map]
 
 /-- the payload the code returns IS the byte range C12 proves (`payload_exact`): composition of the
 statement tie with the model theorem is immediate because both speak about `Packet.payloadRange` -/
